@@ -30,7 +30,7 @@ def _tlc_programs(cfg_text, name, timeout, workers=6):
     return r, G.parse_prog_lines(r.out)
 
 
-def _cfg(roots, max_open, max_mid, full, rep, full_depth, full_mid):
+def _cfg(roots, max_open, max_mid, full, rep, full_depth, full_mid, open_ops="AllOpenOps", wide="FALSE", paths="AllPaths"):
     return """SPECIFICATION Spec
 CONSTANTS
     Roots <- %s
@@ -40,10 +40,13 @@ CONSTANTS
     FamsRep <- %s
     FullDepth = %d
     FullMid = %d
+    OpenOps <- %s
+    WideOpen = %s
+    Paths <- %s
 INVARIANT Emit
 INVARIANT ReportHoles
 CHECK_DEADLOCK FALSE
-""" % (roots, max_open, max_mid, full, rep, full_depth, full_mid)
+""" % (roots, max_open, max_mid, full, rep, full_depth, full_mid, open_ops, wide, paths)
 
 
 def ws_dir(tag):
@@ -218,8 +221,9 @@ def select(recs, tier, rng):
             k = ("h", r["fam"], r["path"], r["why"], r["hk"] if r["fam"] in rep else "", r["ctlkind"] if r["fam"] in rep else "")
             cells.setdefault(k, []).append(i)
             # every way of opening a receiver x every escape route (statement-kind coverage does not depend on luck)
-            pre = tuple(s["op"] + ":" + s["a"] for s in r["prog"][:next(j for j, s in enumerate(r["prog"]) if s["op"] == "Produce")])
-            cells.setdefault(("o", pre, r["why"], r["ctlkind"]), []).append(i)
+            pi = next(j for j, s in enumerate(r["prog"]) if s["op"] == "Produce")
+            pre = tuple("%s:%s:%d" % (s["op"], s["a"], s["h"]) for s in r["prog"][:pi])
+            cells.setdefault(("o", pre, r["prog"][pi]["h"], r["why"], r["ctlkind"]), []).append(i)
         else:
             k = ("s", r["fam"] if r["fam"] in rep else "", r["path"], r["hk"], r["rej"], tuple(s["op"] for s in r["prog"]))
             cells.setdefault(k, []).append(i)
@@ -234,20 +238,27 @@ def check_c04(tier):
     rng = random.Random(seed())
     wd = workdir("C04")
     # ---- 1. TLC: behaviours of Lifetimes.tla, classified, with validated controls -------------------------------
-    runs = [("families", _cfg("AllRoots", 1, 2, "AllFams", "RepFams", 1, 2 if thorough else 1), 1500)]
+    # families: every root, every producer family written in every way, one opener;  alias: two-handle interplay (by_value
+    # copies, as_scope / as_mut_scope borrows, claim and pool guards; frames opened through any handle, `alloc` through any
+    # handle), up to three openers;  depth2 (thorough): two arbitrary openers with the representative families
+    runs = [("families", _cfg("AllRoots", 1, 2, "AllFams", "RepFams", 1, 2 if thorough else 1), 1500),
+            ("alias", _cfg("ArenaRoots", 3, 1, "NoFams", "AliasFams", 0, 1, "AliasOpenOps", "TRUE", "P1Only"), 1500)]
     if thorough:
         runs.append(("depth2", _cfg("ArenaRoots", 2, 2, "NoFams", "RepFams", 0, 2), 2400))
     recs, states, trans, tlc_wall = [], 0, 0, 0.0
     seen = set()
-    for name, cfg_text, to in runs:
-        r, rs = _tlc_programs(cfg_text, name, to, workers=8 if thorough else 6)
+    from concurrent.futures import ThreadPoolExecutor
+    t_tlc = time.time()
+    with ThreadPoolExecutor(max_workers=len(runs)) as ex:
+        outs = list(ex.map(lambda x: _tlc_programs(x[1], x[0], x[2], workers=5), runs))
+    tlc_wall = time.time() - t_tlc
+    for (name, cfg_text, to), (r, rs) in zip(runs, outs):
         fams = tagged_multi(r.out, "FAMS")
         if not fams or set(parse_tla_value(fams[0])) != G.ALL_FAMS:
             raise ToolError("producer families of spec/Lifetimes.tla and lib/lifetimes_gen.py differ: %s" %
                             sorted(set(parse_tla_value(fams[0])) ^ G.ALL_FAMS if fams else []))
         states += r.distinct
         trans += r.generated
-        tlc_wall += r.wall
         for x in rs:
             k = json.dumps([x["root"], x["prog"]])
             if k not in seen:
@@ -348,7 +359,11 @@ def check_c04(tier):
         rec = p["rec"]
         ep = eff_path(rec) if rec["fam"] else ""
         sig = {"recv": rec["hk"], "via": ("Self=" + SELF_TY.get(rec["hk"], rec["hk"])) if ep == "p2" else ("deref" if ep else ""),
-               "written": rec["path"], "fam": rec["fam"], "inval": rec["why"]}
+               "written": rec["path"], "fam": rec["fam"], "inval": rec["why"],
+               # how the receiver was reached and through which handle the producer was called (two-handle interplay)
+               "chain": ">".join("%s%s(e%d)" % (s["op"], ":" + s["a"] if s["a"] else "", s["h"]) for s in p["prog"]
+                                 if s["op"] not in ("Use", "End", "ExitClosure", "CloseBlock") and s["op"] != "Produce")
+                        + " | produce on e%d" % next((s["h"] for s in p["prog"] if s["op"] == "Produce"), 0)}
         ctl = byid.get(p.get("control"))
         out.violation(sig, {"check": "C04", "what": "a HAZARDOUS safe program is accepted by the compiler",
                             "behaviour": p["prog"], "root": p["root"], "program": source(p),
